@@ -61,6 +61,32 @@ type goBody struct {
 }
 
 func (p *Prog) goBodies(fi *FuncInfo) []goBody {
+	res := p.goBodiesIn(fi)
+	if len(res) == 0 {
+		// the goroutine is started by a helper of the package that fi calls (startFlusher)
+		seen := map[string]bool{fi.Key: true}
+		frontier := []*FuncInfo{fi}
+		for depth := 0; depth < 2 && len(res) == 0; depth++ {
+			var next []*FuncInfo
+			for _, g := range frontier {
+				ast.Inspect(g.Decl.Body, func(x ast.Node) bool {
+					if c, ok := x.(*ast.CallExpr); ok {
+						if h := p.staticCallee(g.Pkg, c); h != nil && h.Pkg == fi.Pkg && !seen[h.Key] && h.Decl.Body != nil {
+							seen[h.Key] = true
+							next = append(next, h)
+							res = append(res, p.goBodiesIn(h)...)
+						}
+					}
+					return true
+				})
+			}
+			frontier = next
+		}
+	}
+	return res
+}
+
+func (p *Prog) goBodiesIn(fi *FuncInfo) []goBody {
 	var res []goBody
 	n := 0
 	ast.Inspect(fi.Decl.Body, func(x ast.Node) bool {
@@ -655,7 +681,8 @@ func c16Registration(p *Prog, r *Report) {
 	// flusher
 	if fi := p.Func(kPoolResend); fi != nil {
 		info := fi.Pkg.TypesInfo
-		f := p.FlatOf(fi)
+		// (the goroutine may be started by a helper the function calls: spliced in)
+		f := p.FlatInl(fi)
 		adds := f.Match(func(n *GNode) bool {
 			for _, c := range callsIn(n.Ast, false) {
 				if isWGf(info, c, poolFields.SendWg, "Add") {
@@ -750,6 +777,30 @@ func c16Registration(p *Prog, r *Report) {
 		if first >= 0 {
 			if ds, isD := f.Nodes[first].Ast.(*ast.DeferStmt); isD && isWGf(info, ds.Call, poolFields.RunWg, "Done") {
 				ok = true
+			}
+		}
+		if !ok {
+			// ... or the spawn site does it for the worker: go func() { defer p.runWg.Done(); p.run() }()
+			if starter := p.Func(kPoolRun); starter != nil {
+				bodies := p.goBodiesIn(starter)
+				all := len(bodies) > 0
+				for _, gb := range bodies {
+					good := false
+					if gb.FI != nil && gb.FI.Lit != nil && len(gb.Body.List) > 0 {
+						if ds, isD := gb.Body.List[0].(*ast.DeferStmt); isD && isWGf(info, ds.Call, poolFields.RunWg, "Done") {
+							ast.Inspect(gb.Body, func(x ast.Node) bool {
+								if c, isC := x.(*ast.CallExpr); isC && p.callIs(starter.Pkg, c, kPoolrun) {
+									good = true
+								}
+								return true
+							})
+						}
+					}
+					if !good {
+						all = false
+					}
+				}
+				ok = all
 			}
 		}
 		r.Check(ok, "C16.d", kPoolrun+"#done-deferred", p.pos(fi.Decl), "the worker defers runWg.Done first", "a worker can end without runWg.Done: Stop blocks forever")
